@@ -10,6 +10,11 @@ REALS = ("ValueType is modelled by exact reals (type R): every 'equals its defin
          "the size and growth of IEEE rounding error is NOT decided by this check")
 
 UNITS = {
+    "ind_stoch_cmf": dict(tpl="ind_stoch_cmf.rs.tpl", doc="indicators::{ChaikinMoneyFlow, StochasticOscillator}"),
+    "ind_aroon": dict(tpl="ind_aroon.rs.tpl", doc="indicators::Aroon"),
+    "swma": dict(tpl="swma.rs.tpl", doc="methods::SWMA"),
+    "conv": dict(tpl="conv.rs.tpl", doc="methods::Conv"),
+    "lin_reg": dict(tpl="lin_reg.rs.tpl", doc="methods::LinReg"),
     "indicator_over": dict(tpl="indicator_over.rs.tpl", doc="IndicatorInstance::over and IndicatorConfig::over, generic in the indicator"),
     "ind_more": dict(tpl="ind_more.rs.tpl", doc="indicators::{Envelopes, KeltnerChannel} (generic in the moving-average constructor)"),
     "reversal": dict(tpl="reversal.rs.tpl", doc="methods::{UpperReversalSignal, LowerReversalSignal, ReversalSignal}"),
@@ -45,8 +50,9 @@ KANI_GROUPS = {
     "witness": dict(
         src="kani/witness.rs", append_to="src/lib.rs", module="verif_witness",
         harnesses=[
-            dict(name="vk_tsi_recurrence_2steps", kind="bounded(TSI(1,2), 2 steps, integer inputs in -8..=8)", timeout=900, tier="thorough", props=["C03"], witness_units=["ema"]),
-            dict(name="vk_ema_recurrence_3steps", kind="bounded(EMA(3), 3 steps, integer inputs in -8..=8)", timeout=900, tier="thorough", props=["C03"], witness_units=["ema"]),
+            dict(name="vk_tsi_recurrence_2steps", kind="bounded(TSI(1,2), 2 steps, integer inputs in -8..=8)", timeout=900, tier="thorough", props=["C03"], witness_units=["ema"], witness_fns=["TSI::"]),
+            dict(name="vk_ema_recurrence_3steps", kind="bounded(EMA(3), 3 steps, integer inputs in -8..=8)", timeout=900, tier="thorough", props=["C03"], witness_units=["ema"], witness_fns=["EMA::", "DMA::", "TMA::", "DEMA::", "TEMA::", "WSMA::"]),
+            dict(name="vk_vidya_recurrence_4steps", kind="bounded(Vidya(2), 4 steps, integer inputs in -8..=8)", timeout=900, tier="thorough", props=["C03"], witness_units=["derived_window"], witness_fns=["Vidya::"]),
             dict(name="vk_rsi_sma_no_panic_4steps", kind="bounded(RSI<SMA(3)>, 4 steps, integer closes)", timeout=900, tier="thorough", props=["C10", "C12"], witness_units=["ind_rsi"]),
         ]),
     "renko": dict(
@@ -91,18 +97,21 @@ KANI_GROUPS = {
     "window": dict(
         src="kani/window.rs", append_to="src/core/window.rs", module="core::window::verif_window",
         harnesses=[
-            dict(name="vk_window_slice_index", kind="complete", timeout=300, props=["C01", "C19"], witness_units=["window"]),
+            dict(name="vk_window_slice_index", kind="complete", timeout=300, props=["C01"], witness_units=["window"]),
             dict(name="vk_window_index_newest_oldest", kind="complete", timeout=300, props=["C01"], witness_units=["window"]),
             dict(name="vk_window_push", kind="complete", timeout=300, props=["C01"], witness_units=["window"]),
             dict(name="vk_window_iter_steps", kind="complete", timeout=300, props=["C01"], witness_units=["window"]),
             dict(name="vk_window_iter_last", kind="complete", timeout=300, props=["C01"], witness_units=["window"]),
             dict(name="vk_window_empty", kind="complete", timeout=300, props=["C01"], witness_units=["window"]),
+            dict(name="vk_window_from_parts", kind="bounded(length 5, every oldest-index)", timeout=300, props=["C01", "C13"], witness_units=["window", "window_serde"]),
+        ] + [dict(name=n, kind="complete", timeout=300, props=["C19"], features=["unsafe_performance"]) for n in
+             ["vk_window_slice_index", "vk_window_index_newest_oldest", "vk_window_push", "vk_window_iter_steps", "vk_window_iter_last", "vk_window_empty"]] + [
         ]),
 }
 
-INDICATOR_UNITS = ["ind_macd", "ind_channels", "ind_rsi", "ind_more"]
-IND_DEPS = ["indicator_base", "ohlcv", "window", "sma", "st_dev", "highest_lowest", "highest_lowest_index", "ema", "wma"]
-COVERED_INDICATORS = "MACD, DonchianChannel, PriceChannelStrategy, BollingerBands, RelativeStrengthIndex, Envelopes, KeltnerChannel"
+INDICATOR_UNITS = ["ind_macd", "ind_channels", "ind_rsi", "ind_more", "ind_aroon", "ind_stoch_cmf"]
+IND_DEPS = ["indicator_base", "ohlcv", "window", "sma", "st_dev", "highest_lowest", "highest_lowest_index", "ema", "wma", "candle_methods"]
+COVERED_INDICATORS = "MACD, DonchianChannel, PriceChannelStrategy, BollingerBands, RelativeStrengthIndex, Envelopes, KeltnerChannel, Aroon, ChaikinMoneyFlow, StochasticOscillator"
 
 
 PROPS = {
@@ -118,7 +127,7 @@ PROPS = {
     ),
 }
 
-C02_UNITS = ["window", "sma", "simple_window", "wma", "vwma", "st_dev", "mean_abs_dev", "compose_ma", "derived_window", "candle_methods", "ohlcv"]
+C02_UNITS = ["window", "sma", "simple_window", "wma", "vwma", "st_dev", "mean_abs_dev", "compose_ma", "derived_window", "candle_methods", "ohlcv", "lin_reg", "swma", "conv"]
 
 PROPS["C02"] = dict(
     verus=C02_UNITS,
@@ -159,8 +168,8 @@ PROPS["C04"] = dict(
 )
 
 METHOD_UNITS = ["sma", "simple_window", "wma", "vwma", "st_dev", "mean_abs_dev", "compose_ma", "ema", "derived_window",
-                "candle_methods", "highest_lowest", "highest_lowest_index"]
-ALL_VERUS = ["window", "ohlcv"] + METHOD_UNITS + ["indicator_base", "combinators", "converters", "ind_macd", "ind_channels", "ind_rsi", "ind_more", "reversal", "indicator_over", "window_serde"]
+                "candle_methods", "highest_lowest", "highest_lowest_index", "lin_reg", "swma", "conv"]
+ALL_VERUS = ["window", "ohlcv"] + METHOD_UNITS + ["indicator_base", "combinators", "converters", "ind_macd", "ind_channels", "ind_rsi", "ind_more", "ind_aroon", "ind_stoch_cmf", "reversal", "indicator_over", "window_serde"]
 
 PROPS["C08"] = dict(
     verus=ALL_VERUS,
@@ -207,7 +216,7 @@ PROPS["C07"] = dict(
 )
 
 PROPS["C09"] = dict(
-    verus=["combinators", "indicator_over", "compose_ma", "sma", "wma", "st_dev", "ema", "candle_methods", "mean_abs_dev"],
+    verus=["combinators", "indicator_over", "compose_ma", "sma", "wma", "st_dev", "ema", "candle_methods", "mean_abs_dev", "swma", "lin_reg", "conv", "highest_lowest", "highest_lowest_index"],
     forbid_in_src=[(r"static\s+mut\b|thread_local!|\bRefCell\b|\bCell<|Atomic(U|I|Bool)|\brand::|UnsafeCell|lazy_static|OnceCell|OnceLock", "no shared or interior-mutable state"),
                    (r"\bHashMap\b|\bHashSet\b", "no iteration-order nondeterminism")],
     claim=("Sequence::call, Method::over and Method::new_over are verified for an ARBITRARY M: Method (generic, against the trait contract) to return "
@@ -215,7 +224,8 @@ PROPS["C09"] = dict(
            "that any split of the stream into consecutive chunks (empty ones included) gives the same chain. WithHistory and WithLastValue are verified "
            "to perform exactly the wrapped method's step (peek returns a clone of the last output). IndicatorInstance::over and IndicatorConfig::over are "
            "verified the same way for an arbitrary indicator. peek of SMA, WMA, StDev, EMA, DEMA, TEMA, TSI, ADI, MeanAbsDev and TRIMA is verified to return "
-           "the value the last next produced (stored value, or the same expression over the same state)."),
+           "the value the last next produced (stored value, or the same expression over the same state); likewise SWMA (every length, after the length-1 fix), LinReg, Conv, "
+           "Highest, Lowest, HighestLowestDelta, HighestIndex, LowestIndex."),
     assumptions=["bit-identity of identically built instances and independence of clones are properties of safe Rust without shared/interior-mutable "
                  "state; they are ASSUMED and backed only by the source scan reported under coverage.src_scan",
                  "Sequence::apply / Method::apply / new_apply (iter_mut) and into_fn/new_fn/init_fn (boxed closures) are not under contract",
@@ -270,9 +280,10 @@ PROPS["C12"] = dict(
     claim=("Ideal-arithmetic ranges: proved as extra postconditions — CLV in [-1,1] for low<=close<=high; tr_close and TR >= 0 for high >= low; StDev and "
            "LinearVolatility >= 0; Vidya's CMO factor in [0,1] and its guarded quotient well defined; TSI's guard implies a positive denominator; "
            "RSI in [0,1] for averaging kinds that cannot overshoot (with its debug assertion discharged); Bollinger upper >= middle >= lower; "
-           "Donchian and PriceChannel contain the highs/lows they are built from."),
+           "Donchian and PriceChannel contain the highs/lows they are built from; Aroon lines in (0,1]; Stochastic %K in [0,1] for an ordered candle and both "
+           "lines in [0,1] for averaging kinds that cannot overshoot; Keltner upper >= average >= lower while the true ranges fed are non-negative; Envelopes ordered for a non-negative average."),
     assumptions=[REALS + ": residue after a flat stretch and non-finite outputs are float behaviour and are NOT decided",
-                 "Aroon, MFI, Stochastic, CMO, CMF, SMI, Keltner, Envelopes, ParabolicSAR, MeanAbsDev are not covered by this check yet"],
+                 "MFI, CMO, CMF's range, SMI/TSI-based indicators, ParabolicSAR, MeanAbsDev >= 0 are not covered by this check yet"],
 )
 
 PROPS["C17"] = dict(
@@ -306,7 +317,7 @@ PROPS["C15"] = dict(
                  "MA enum dispatch (MA::init) is not under contract"],
 )
 PROPS["C13"] = dict(
-    verus=["window_serde", "window"],
+    verus=["window_serde", "window"], kani=["window"],
     forbid_in_src=[(r"serde\(\s*skip", "every field of the derived impls is serialized")],
     claim=("Window's hand-written Deserialize is extracted (serde glue and error-text construction dropped) and verified: an oversized buffer or an "
            "oldest-index outside the buffer is rejected with Err exactly, never a panic (from_parts's assertions are discharged by the two checks), and "
